@@ -4,9 +4,9 @@ import Abmarl.Lemmas.ManagersInv
 # The packaged examples satisfy the frame conditions of the manager theorems (`Lawful`, `WF`)
 
 The getters of the five modelled classes read the world and the reward dict only; `get_obs` moves
-the oracle tape, `get_reward` writes one entry of the reward dict.  For the four classes that
-inherit `SmartGridWorldSimulation.get_reward` that is exactly `Lawful`; `MultiMazeNavigationSim`
-overrides `get_reward` by something that is not read-and-reset (`multiMaze_not_lawful`).
+the oracle tape, `get_reward` reads one entry of the reward dict and writes 0 there.  That is exactly
+`Lawful` — for all five classes since `MultiMazeNavigationSim.get_reward` was repaired (fce2c1d,
+finding C01-E1: it used to return 1 on every call while the navigator stood on the target).
 -/
 namespace Abmarl
 namespace Ex
@@ -53,7 +53,7 @@ theorem getObs_shape {cfg : Cfg} {s s' : St} {a : Aid} {o : List (String × Obse
 
 theorem getReward_shape {cfg : Cfg} {s s' : St} {a : Aid} {x : Int}
     (h : getReward cfg s a = .ok (x, s')) :
-    ∃ r, s.rewards = some r ∧ rewardVal cfg s.w r a = .ok x ∧ s' = { s with rewards := some (dictSet r a 0) } := by
+    ∃ r, s.rewards = some r ∧ rewardVal r a = .ok x ∧ s' = { s with rewards := some (dictSet r a 0) } := by
   unfold getReward at h
   split at h
   · cases h
@@ -64,24 +64,18 @@ theorem getReward_shape {cfg : Cfg} {s s' : St} {a : Aid} {x : Int}
       simp only [Except.ok.injEq, Prod.mk.injEq] at h
       exact ⟨r, hr, by rw [hy, h.1], h.2.symm⟩
 
-/-- the value of `get_reward` for the classes that inherit it from the smart simulation -/
-theorem rewardVal_smart {cfg : Cfg} (hw : cfg.which ≠ .multiMaze) (w : World) (r : Ledger) (a : Aid) :
-    rewardVal cfg w r a = (match r.lookup a with | none => .error .keyError | some x => .ok x) := by
-  unfold rewardVal
-  cases hc : cfg.which <;> simp_all <;> cases r.lookup a <;> rfl
-
-theorem pendingOf_smart {cfg : Cfg} (hw : cfg.which ≠ .multiMaze) (s : St) (a : Aid) :
+theorem pendingOf_eq (cfg : Cfg) (s : St) (a : Aid) :
     pendingOf cfg s a = (match s.rewards with | none => 0 | some r => (r.lookup a).getD 0) := by
   unfold pendingOf
   cases hr : s.rewards with
   | none => rfl
   | some r =>
-    simp only [rewardVal_smart hw]
+    simp only [rewardVal]
     cases r.lookup a <;> rfl
 
 /-- **`Lawful`** for `TeamBattleSim`, `PredatorPreyResourcesSim`, `MazeNavigationSim`,
-`TrafficCorridorSimulation` — every configuration, every number of agents -/
-theorem ex_lawful (cfg : Cfg) (n : Nat) (hw : cfg.which ≠ .multiMaze) : Lawful (toSimIface cfg n) where
+`MultiMazeNavigationSim`, `TrafficCorridorSimulation` — every configuration, every number of agents -/
+theorem ex_lawful (cfg : Cfg) (n : Nat) : Lawful (toSimIface cfg n) where
   obs_done := by
     intro s a b
     simp only [toSimIface]
@@ -132,7 +126,7 @@ theorem ex_lawful (cfg : Cfg) (n : Nat) (hw : cfg.which ≠ .multiMaze) : Lawful
       | some r =>
         rw [hr] at h
         simp only at h
-        cases hv : rewardVal cfg s.w r a with
+        cases hv : rewardVal r a with
         | error e' => simp [hv]
         | ok x => rw [hv] at h; cases h
     | ok r =>
@@ -142,7 +136,7 @@ theorem ex_lawful (cfg : Cfg) (n : Nat) (hw : cfg.which ≠ .multiMaze) : Lawful
   rew_pending := by
     intro s a b
     simp only [toSimIface]
-    rw [pendingOf_smart hw, pendingOf_smart hw]
+    rw [pendingOf_eq, pendingOf_eq]
     cases h : getReward cfg s a with
     | error e =>
       simp only
@@ -154,7 +148,7 @@ theorem ex_lawful (cfg : Cfg) (n : Nat) (hw : cfg.which ≠ .multiMaze) : Lawful
         | none => rfl
         | some r =>
           rw [hr] at h
-          simp only [rewardVal_smart hw] at h
+          simp only [rewardVal] at h
           cases hl : r.lookup b with
           | none => simp [hl]
           | some x => rw [hl] at h; cases h
@@ -167,9 +161,9 @@ theorem ex_lawful (cfg : Cfg) (n : Nat) (hw : cfg.which ≠ .multiMaze) : Lawful
 
 /-- `WF` for the two managers that can drive the examples (they are not
 `DynamicOrderSimulation`s): the turn-based manager needs a learning agent -/
-theorem ex_WF (cfg : Cfg) (n : Nat) (k : MKind) (hw : cfg.which ≠ .multiMaze) (hk : k ≠ .dynamic)
+theorem ex_WF (cfg : Cfg) (n : Nat) (k : MKind) (hk : k ≠ .dynamic)
     (hl : k = .turnBased → ∃ a < n, cfg.isLearning a = true) : WF (toSimIface cfg n) k where
-  lawful := ex_lawful cfg n hw
+  lawful := ex_lawful cfg n
   turn := by
     intro hk'
     obtain ⟨a, ha, hla⟩ := hl hk'
